@@ -10,12 +10,9 @@
 //! attributed to the state it was executing and restarted behind it. A worker that sees
 //! `from_boxed_trait` panic abandons itself (the panic happens while savefile-abi holds a global
 //! mutex, which stays poisoned) and is restarted behind that entry.
-#[allow(unused_mut, unused_variables, non_snake_case, clippy::all)]
-mod family;
-mod asyncfam;
 mod cases;
 mod engine;
-mod support;
+use vabi09fam::support;
 
 use cases::Case;
 use engine::Stats;
@@ -103,7 +100,11 @@ fn child(thorough: bool, k: usize, n: usize, resume: (i64, u64)) -> ! {
                 println!("E {}", m);
             }
             if ci == 0 || ci + 1 == total {
-                println!("X {}", case.to_json());
+                let mm = &e.tm.methods[mi];
+                let mut cj = case.to_json();
+                cj["signature"] = json!(format!("fn {}({}self{}{}) -> {}", mm.name, if mm.recv_mut { "&mut " } else { "&" }, if mm.args.is_empty() { "" } else { ", " },
+                    mm.args.iter().map(|k| support::arg_kind(k).ty).collect::<Vec<_>>().join(", "), support::ret_kind(mm.ret).ty));
+                println!("X {}", json!({"pos": pos, "sno": sno, "case": cj}));
             }
             if o.poisoned {
                 st.add("methods", methods_seen.len() as u64);
@@ -138,9 +139,9 @@ fn parent(run: &mut Run) -> Map<String, Value> {
     let base = vec![run.property.clone(), "--tier".to_string(), run.tier.name().to_string()];
     let mut stats = Stats::default();
     let mut machinery: Vec<String> = vec![];
-    let mut nsample = 0u64;
+    let mut samples: Vec<(u64, u64, Value)> = vec![];
     {
-        let cell = std::sync::Mutex::new((&mut *run, &mut stats, &mut machinery, &mut nsample));
+        let cell = std::sync::Mutex::new((&mut *run, &mut stats, &mut machinery, &mut samples));
         vcommon::child::run_workers(
             workers,
             &base,
@@ -158,10 +159,8 @@ fn parent(run: &mut Run) -> Map<String, Value> {
                         }
                     }
                 } else if let Some(j) = line.strip_prefix("X ") {
-                    *g.3 += 1;
-                    let n = *g.3;
                     if let Ok(v) = vcommon::serde_json::from_str::<Value>(j) {
-                        g.0.sample(n, || v);
+                        g.3.push((v["pos"].as_u64().unwrap_or(0), v["sno"].as_u64().unwrap_or(0), v["case"].clone()));
                     }
                 } else if let Some(m) = line.strip_prefix("E ") {
                     g.2.push(m.to_string());
@@ -200,6 +199,7 @@ fn parent(run: &mut Run) -> Map<String, Value> {
                         ("arg_kinds", mm.args.join(",")),
                         ("ret_kind", mm.ret.to_string()),
                         ("payload", case.panic.clone()),
+                        ("panic_site", engine::panic_site(&case.panic).to_string()),
                         ("keep", case.keep.to_string()),
                         ("order", case.order.clone()),
                     ]),
@@ -218,6 +218,19 @@ fn parent(run: &mut Run) -> Map<String, Value> {
         vcommon::machinery_error(&format!("only {} of {} entries were completed", g("entries"), n_entries));
     }
     let mut cov = Map::new();
+    // samples: the first, the last and evenly spaced cases of the (deterministic) work list
+    samples.sort_by(|a, b| (a.0, a.1).cmp(&(b.0, b.1)));
+    let picked: Vec<Value> = if samples.is_empty() {
+        vec![]
+    } else {
+        let n = samples.len();
+        let mut idx: Vec<usize> = (0..10).map(|i| i * (n - 1) / 9).collect();
+        idx.dedup();
+        idx.into_iter().map(|i| samples[i].2.clone()).collect()
+    };
+    if !picked.is_empty() {
+        cov.insert("samples".into(), Value::Array(picked));
+    }
     cov.insert("states".into(), json!(g("states")));
     cov.insert("transitions".into(), json!(g("transitions")));
     cov.insert("traces_validated_against_impl".into(), json!(g("traces_validated")));
@@ -243,12 +256,30 @@ fn parent(run: &mut Run) -> Map<String, Value> {
         "bounds".into(),
         json!({"strings": if thorough { "every length 0..=140, 255..257, 1000, 4095..4097, 70000, multi-byte" } else { "every length 0..=80, multi-byte" },
                "vectors": if thorough { "0,1,2,3,12..17,63,64,65,255..257,1000" } else { "0,1,2,12,13,14,63,64,65" },
-               "string pairs": if thorough { "all (i,j) in 0..=64 x 0..=64" } else { "i in 34..=53 x j in {0,1,2,7,8,9}" },
+               "string pairs": if thorough { "all (i,j) in 0..=80 x 0..=80; full products of short value lists for all 2- and 3-argument methods" } else { "i in 34..=53 x j in {0,1,2,7,8,9}" },
                "panic payloads": "static_str, formatted_string, any(i32), static_str raised inside a caller-side closure",
                "future schedules": if thorough { "0..=4 Pending rounds x wake during/deferred x drop after 0..=n polls" } else { "0..=2 Pending rounds x wake during/deferred x drop after 0..=n polls" },
                "max arguments": 64, "method counts": if thorough { "64, 65, 200" } else { "64, 65" }}),
     );
     cov
+}
+
+/// `--replay`: the case runs in a child process, because a failing case may kill the process
+fn replay_outer(path: &std::path::Path) -> ! {
+    let exe = std::env::current_exe().unwrap_or_else(|e| vcommon::machinery_error(&format!("current_exe: {}", e)));
+    let status = std::process::Command::new(exe)
+        .args(["C09", "--replay-inner"])
+        .arg(path)
+        .status()
+        .unwrap_or_else(|e| vcommon::machinery_error(&format!("cannot spawn replay child: {}", e)));
+    match status.code() {
+        Some(c @ 0..=2) => std::process::exit(c),
+        _ => {
+            println!("REPLAY-FAIL oracle=process_abort the process executing the case died: {:?}", status);
+            println!("replay: 1 violation(s) reproduced");
+            std::process::exit(1)
+        }
+    }
 }
 
 fn replay(path: &std::path::Path) -> ! {
@@ -292,7 +323,10 @@ fn main() {
         vcommon::machinery_error(&format!("vabi09 does not serve property {}", args.property));
     }
     if let Some(p) = &args.replay {
-        replay(p);
+        replay_outer(p);
+    }
+    if let Some(i) = args.extra.iter().position(|a| a == "--replay-inner") {
+        replay(std::path::Path::new(&args.extra[i + 1]));
     }
     if let Some(i) = args.extra.iter().position(|a| a == "--child") {
         let k: usize = args.extra[i + 1].parse().unwrap();
